@@ -24,6 +24,15 @@ Spec run (exact Fractions, independent of the model's correctness):
     certificate is proposed by the exact Rat model, but its verification does not depend on
     the model.  The code's status must be the verified class (0 / 2 / 3); its `fun` must be
     the certified optimal value inside 1e-9.
+  * optional output / work arguments and histories: `tableau=`, `basis=`, `x=`, `lambd=` given or omitted
+    in all 16 combinations, pre-filled with garbage / NaN / 1e300 / earlier contents, reused over sequences
+    of LPs of equal shape (mixed ub/eq rows) and cleared by the caller between calls; every result must be
+    bit-identical to the buffer-free call (`buffer_dependence`), must not alias buffers / inputs / earlier
+    results unless it *is* the supplied buffer (`result_aliases_buffer`), inputs stay bitwise unchanged
+    (`input_mutated`), and EVERY earlier result is re-read after every later call: unchanged bits
+    (`earlier_result_overwritten`) and still an exact primal-dual certificate (`earlier_result_certificate`).
+    Argument forms (int64, float32, Fortran-ordered, strided, NumPy-scalar options, lists) must give the
+    float64 answer (`argument_form`); minmax likewise.
   * termination: `lpcycle rat` replays Phase 2 with a record of the bases visited; a recurring basis
     (the exact run cycles) is a spec failure `lex_cycle`; `lexStartOK` (hypothesis of the theorem
     `linprog_terminates_lex`) is counted, status 1 under `lexStartOK` is a spec failure.
@@ -638,17 +647,239 @@ def kernel_cases(ctx, cases, count):
             cases.append(Case("C04 pivot float T=%s c=%d r=%d" % (fxm(Tn), c, int(row)), fxm(P),
                               nontrivial=True, tag="pivot"))
     # _initialize_tableau
+    ctx_np = ctx.np_rng()
     for _ in range(count // 2):
         lp = gen_lp(R, R.choice(["mixed", "negb", "ub", "eq"]))
         c, Aub, bub, Aeq, beq = lp.arrays()
         L = lp.m + lp.k
-        tableau = np.full((L + 1, lp.n + lp.m + L + 1), 7.5)
+        tableau = np.round(ctx_np.standard_normal((L + 1, lp.n + lp.m + L + 1)) * 8) / 4 + 0.25
+        pre = tableau.copy()
         basis = np.empty(L, dtype=np.int_)
         _initialize_tableau(Aub, bub, Aeq, beq, tableau, basis)
-        cases.append(Case("C04 init float n=%d m=%d k=%d Aub=%s bub=%s Aeq=%s beq=%s" % (
-            lp.n, lp.m, lp.k, fxm(Aub), fxs(bub), fxm(Aeq), fxs(beq)),
+        # the model writes into the same pre-filled buffer (`initTableauBuf`): buffers are explicit inputs
+        cases.append(Case("C04 init float n=%d m=%d k=%d Aub=%s bub=%s Aeq=%s beq=%s buf=%s" % (
+            lp.n, lp.m, lp.k, fxm(Aub), fxs(bub), fxm(Aeq), fxs(beq), fxm(pre)),
             "T=%s basis=%s" % (fxm(tableau), ints(basis)), nontrivial=True, tag="init"))
 
+
+
+# ----------------------------------------------------------------------------
+# optional output / work arguments, histories, argument forms
+
+def gen_lp_shape(R, n, m, k):
+    """an LP of the given shape with mixed signs of b (integer data, |entries| <= 3)"""
+    pz = R.choice([0.0, 0.3, 0.5])
+    row = lambda lo, hi: [rint(R, lo, hi, pz) for _ in range(n)]
+    kind = R.random()
+    if kind < 0.7:      # bounded-ish: mostly status 0
+        Aub = [[R.randint(0, 3) for _ in range(n)] for _ in range(m)]
+        if m:
+            Aub[0] = [R.randint(1, 3) for _ in range(n)]
+        bub = [R.randint(0, 3) for _ in range(m)]
+        x0 = [R.randint(0, 1) for _ in range(n)]
+        Aeq = [row(-2, 2) for _ in range(k)]
+        beq = [max(-3, min(3, sum(a * b for a, b in zip(r, x0)))) for r in Aeq]
+        c = [R.randint(-1, 3) for _ in range(n)]
+    else:
+        Aub = [row(-3, 3) for _ in range(m)]
+        Aeq = [row(-3, 3) for _ in range(k)]
+        bub = [R.randint(-2, 3) for _ in range(m)]
+        beq = [R.randint(-2, 3) for _ in range(k)]
+        c = [rint(R, -3, 3, 0.2) for _ in range(n)]
+    return LPD(c, Aub, bub, Aeq, beq, "history")
+
+
+def _bits(a):
+    return np.ascontiguousarray(np.asarray(a, dtype=float)).tobytes()
+
+
+def history_cases(ctx, nseq):
+    """sequences of solves of equal shape through caller-supplied / omitted `tableau=`, `basis=`, `x=`,
+    `lambd=` (all 16 combinations), buffers pre-filled with garbage / NaN / earlier contents and scribbled
+    over between calls; every earlier result is kept and re-judged after every later call"""
+    from quantecon.optimize.linprog_simplex import linprog_simplex, PivOptions
+    R = ctx.rng
+    nprng = ctx.np_rng()
+    opts = PivOptions(FEA_TOL, TOL_PIV, TOL_RATIO_DIFF)
+    for q in range(nseq):
+        combo = q % 16
+        use_t, use_b, use_x, use_l = bool(combo & 1), bool(combo & 2), bool(combo & 4), bool(combo & 8)
+        n = R.randint(1, 6)
+        L = R.randint(1, 5)
+        m = R.randint(0, L) if R.random() < 0.3 else R.randint(1, max(1, L - 1))
+        k = L - m
+        N = n + m + L
+        fill = R.choice(["garbage", "nan", "prev", "huge"])
+        bufs = {}
+        if use_t:
+            bufs["tableau"] = np.empty((L + 1, N + 1))
+        if use_b:
+            bufs["basis"] = np.empty(L, dtype=np.int_)
+        if use_x:
+            bufs["x"] = np.empty(n)
+        if use_l:
+            bufs["lambd"] = np.empty(L)
+
+        def scribble(first):
+            if fill == "prev" and not first:
+                return
+            for name, a in bufs.items():
+                if name == "basis":
+                    a[:] = nprng.randint(-5, N + 5, size=a.shape)
+                elif fill == "nan":
+                    a[...] = np.nan
+                elif fill == "huge":
+                    a[...] = 1e300
+                else:
+                    a[...] = nprng.standard_normal(a.shape) * 7
+        records = []
+        for t in range(R.randint(2, 5)):
+            lp = gen_lp_shape(R, n, m, k)
+            c, Aub, bub, Aeq, beq = lp.arrays()
+            inputs = {"c": c, "A_ub": Aub, "b_ub": bub, "A_eq": Aeq, "b_eq": beq}
+            before = {kk: v.tobytes() for kk, v in inputs.items()}
+            scribble(t == 0)
+            res = linprog_simplex(c, A_ub=Aub, b_ub=bub, A_eq=Aeq, b_eq=beq, max_iter=10 ** 6, piv_options=opts,
+                                  **bufs)
+            ref = linprog_simplex(c.copy(), A_ub=Aub.copy(), b_ub=bub.copy(), A_eq=Aeq.copy(), b_eq=beq.copy(),
+                                  max_iter=10 ** 6, piv_options=opts)
+            ctx.count("history:combo=%s%s%s%s" % ("T" if use_t else "-", "B" if use_b else "-",
+                                                    "X" if use_x else "-", "L" if use_l else "-"))
+            ctx.count("history:status=%d" % int(res.status))
+            rp = lp.replay()
+            rp.update({"supplied": sorted(bufs), "fill": fill, "step": t,
+                       "earlier": [r["lp"].replay() for r in records]})
+            # inputs untouched
+            for kk, v in inputs.items():
+                if v.tobytes() != before[kk]:
+                    ctx.spec_fail("input_mutated", "linprog_simplex modified its input %s" % kk, rp)
+            # buffers must not influence the result
+            same = (int(res.status) == int(ref.status) and int(res.num_iter) == int(ref.num_iter)
+                    and bool(res.success) == bool(ref.success) and _bits([res.fun]) == _bits([ref.fun]))
+            if same and np.isfinite(ref.fun):
+                same = _bits(res.x) == _bits(ref.x) and _bits(res.lambd) == _bits(ref.lambd)
+            if not same:
+                ctx.spec_fail("buffer_dependence", "result with supplied/pre-filled buffers %s differs from the result "
+                              "of the same call without buffers (status %d/%d, fun %r/%r)" % (
+                                  sorted(bufs), res.status, ref.status, float(res.fun), float(ref.fun)), rp)
+            # aliasing
+            others = list(inputs.values()) + [a for nm_, a in bufs.items()]
+            for fld, supplied in (("x", use_x), ("lambd", use_l)):
+                arr = getattr(res, fld)
+                if supplied:
+                    if not (np.shares_memory(arr, bufs[fld]) and arr.shape == bufs[fld].shape):
+                        ctx.spec_fail("result_not_in_buffer", "res.%s is not the supplied %s= buffer" % (fld, fld), rp)
+                else:
+                    for o in others + [getattr(r["res"], f2) for r in records for f2 in ("x", "lambd")]:
+                        if np.shares_memory(arr, o):
+                            ctx.spec_fail("result_aliases_buffer", "res.%s (not supplied by the caller) shares memory "
+                                          "with a work buffer, an input or an earlier result" % fld, rp)
+                            break
+            if np.shares_memory(res.x, res.lambd):
+                ctx.spec_fail("result_aliases_buffer", "res.x and res.lambd share memory", rp)
+            records.append({"lp": lp, "res": res, "x": res.x.copy(), "lambd": res.lambd.copy(),
+                            "fun": float(res.fun), "status": int(res.status), "step": t})
+            # the caller reuses / clears its own work buffers, then looks at every result again
+            if t % 2 == 1:
+                for name, a in bufs.items():
+                    if name in ("tableau", "basis"):
+                        a[...] = 0 if name == "basis" else np.nan
+            for r in records:
+                late = r["step"] < t or t % 2 == 1
+                if not late:
+                    continue
+                rr = r["res"]
+                rpl = r["lp"].replay()
+                rpl.update({"supplied": sorted(bufs), "fill": fill, "solved_at_step": r["step"], "reexamined_after_step": t,
+                            "later": [q2["lp"].replay() for q2 in records[r["step"] + 1:]]})
+                if int(rr.status) != r["status"] or _bits([rr.fun]) != _bits([r["fun"]]):
+                    ctx.spec_fail("earlier_result_overwritten", "status/fun of an earlier result changed", rpl)
+                if r["status"] != 0 and not np.isfinite(r["fun"]):
+                    continue
+                for fld, supplied in (("x", use_x), ("lambd", use_l)):
+                    if supplied and r["step"] < t:
+                        continue          # the caller's own output buffer: overwritten by contract
+                    if _bits(getattr(rr, fld)) != _bits(r[fld]):
+                        ctx.spec_fail("earlier_result_overwritten", "res.%s of the solve at step %d changed after the "
+                                      "work buffers were reused / cleared (step %d)" % (fld, r["step"], t), rpl)
+                if r["status"] == 0 and not ((use_x or use_l) and r["step"] < t):
+                    if not (np.all(np.isfinite(rr.x)) and np.all(np.isfinite(rr.lambd)) and np.isfinite(rr.fun)):
+                        ctx.spec_fail("earlier_result_certificate", "an earlier status-0 result re-examined after later "
+                                      "solves contains non-finite numbers", rpl)
+                        continue
+                    why = optimal_cert_violation(r["lp"], [F(float(v)) for v in rr.x], [F(float(v)) for v in rr.lambd],
+                                                 F(float(rr.fun)), TOL)
+                    if why:
+                        ctx.spec_fail("earlier_result_certificate", "an earlier status-0 result re-examined after later "
+                                      "solves is no longer a primal-dual certificate: " + why, rpl)
+                    else:
+                        ctx.count("history:earlier-result-recertified")
+
+
+def argform_cases(ctx, count):
+    """the same LP passed as int64 / float32 / Fortran-ordered / non-contiguous arrays, max_iter and the
+    tolerances as NumPy scalars, lists: the answer must be the float64 C-ordered one (or a clean exception)"""
+    from quantecon.optimize.linprog_simplex import linprog_simplex, PivOptions
+    from quantecon.optimize.minmax import minmax
+    R = ctx.rng
+    opts = PivOptions(FEA_TOL, TOL_PIV, TOL_RATIO_DIFF)
+    forms = {
+        "int64": lambda a: a.astype(np.int64),
+        "float32": lambda a: a.astype(np.float32),
+        "fortran": lambda a: np.asfortranarray(a),
+        "strided": lambda a: (np.repeat(a, 2, axis=-1)[..., ::2] if a.ndim else a),
+    }
+    for _ in range(count):
+        lp = gen_lp_shape(R, R.randint(1, 5), R.randint(1, 3), R.randint(0, 2))
+        c, Aub, bub, Aeq, beq = lp.arrays()
+        ref = linprog_simplex(c, A_ub=Aub, b_ub=bub, A_eq=Aeq, b_eq=beq, max_iter=10 ** 6, piv_options=opts)
+        variants = [(nm_, dict(c=f(c), A_ub=f(Aub), b_ub=f(bub), A_eq=f(Aeq), b_eq=f(beq), max_iter=10 ** 6,
+                               piv_options=opts)) for nm_, f in forms.items()]
+        variants.append(("numpy-scalars", dict(c=c, A_ub=Aub, b_ub=bub, A_eq=Aeq, b_eq=beq, max_iter=np.int64(10 ** 6),
+                                               piv_options=PivOptions(np.float64(FEA_TOL), np.float64(TOL_PIV),
+                                                                      np.float64(TOL_RATIO_DIFF)))))
+        if ctx.thorough:
+            variants.append(("lists", dict(c=c.tolist(), A_ub=Aub.tolist(), b_ub=bub.tolist(), A_eq=Aeq.tolist(),
+                                           b_eq=beq.tolist(), max_iter=10 ** 6, piv_options=opts)))
+        for nm_, kw in variants:
+            cc = kw.pop("c")
+            keep = {kk: (np.array(v, copy=True) if isinstance(v, np.ndarray) else None) for kk, v in kw.items()}
+            try:
+                r = linprog_simplex(cc, **kw)
+            except Exception as e:           # a clean refusal is not a wrong answer
+                ctx.count("argform:%s:ERR:%s" % (nm_, type(e).__name__))
+                continue
+            ctx.count("argform:%s:ok" % nm_)
+            for kk, v in kw.items():
+                if isinstance(v, np.ndarray) and keep[kk] is not None and v.tobytes() != keep[kk].tobytes():
+                    ctx.spec_fail("input_mutated", "linprog_simplex modified its %s input %s" % (nm_, kk), lp.replay())
+            ok = int(r.status) == int(ref.status) and _bits([r.fun]) == _bits([ref.fun])
+            if ok and np.isfinite(ref.fun):
+                ok = _bits(r.x) == _bits(ref.x) and _bits(r.lambd) == _bits(ref.lambd)
+            if not ok:
+                rp = lp.replay()
+                rp["form"] = nm_
+                ctx.spec_fail("argument_form", "the %s form of the same data gives another answer (status %d vs %d, "
+                              "fun %r vs %r)" % (nm_, r.status, ref.status, float(r.fun), float(ref.fun)), rp)
+    # minmax: input unchanged, other array forms give the same answer
+    for _ in range(count):
+        m, n = R.randint(1, 4), R.randint(1, 4)
+        A = np.array([[float(R.randint(-3, 3)) for _ in range(n)] for _ in range(m)])
+        keep = A.tobytes()
+        v, x, y = minmax(A)
+        if A.tobytes() != keep:
+            ctx.spec_fail("input_mutated", "minmax modified its input", {"A": A.tolist()})
+        if np.shares_memory(x, A) or np.shares_memory(y, A) or np.shares_memory(x, y):
+            ctx.spec_fail("result_aliases_buffer", "minmax results share memory", {"A": A.tolist()})
+        for nm_, f in forms.items():
+            try:
+                v2, x2, y2 = minmax(f(A))
+            except Exception as e:
+                ctx.count("argform:minmax-%s:ERR:%s" % (nm_, type(e).__name__))
+                continue
+            ctx.count("argform:minmax-%s:ok" % nm_)
+            if _bits([v2]) != _bits([v]) or _bits(x2) != _bits(x) or _bits(y2) != _bits(y):
+                ctx.spec_fail("argument_form", "minmax on the %s form of A gives another answer" % nm_, {"A": A.tolist()})
 
 # ----------------------------------------------------------------------------
 
@@ -722,5 +953,8 @@ def run(ctx):
         minmax_cases(ctx, A, cases, F(1, 10 ** 6), False, "minmax-real")
 
     kernel_cases(ctx, cases, ctx.n(150, 5000))
+
+    history_cases(ctx, ctx.n(96, 1600))
+    argform_cases(ctx, ctx.n(25, 300))
 
     ctx.run_cases(cases)
